@@ -130,7 +130,7 @@ theorem runOps_snd_append (w : World) (a b : List Op) : (runOps w (a ++ b)).2 = 
   | cons op rest ih => rw [List.cons_append, runOps_snd_cons, runOps_snd_cons, ih]
 
 theorem closeAll_spec (w : World) :
-    validFrom w (closeAllOps w) ∧ NoBounded (closeAllOps w) ∧ allClosed (runOps w (closeAllOps w)).2 := by
+    validFrom w (closeAllOps w) ∧ CapsPos (closeAllOps w) ∧ allClosed (runOps w (closeAllOps w)).2 := by
   let ls := (List.range w.sessions.length).filter fun s => !(w.sessions.getD s default).closed
   let lf := (List.range w.facs.length).filter fun f => !(w.facs.getD f default).closed
   have hls : ls.Nodup := List.Nodup.sublist List.filter_sublist List.nodup_range
